@@ -127,6 +127,29 @@ def c14_r2(ctx: Ctx, rule):
                     if isinstance(t, ast.If) and any(x is n for x in ast.walk(t.test)) and any(isinstance(b, (ast.Continue, ast.Return)) for b in t.body):
                         tests.append(n)
     res.ob("graph_to_prov keeps only nodes whose bundle is not None: %s" % bool(tests))
+    # `.bundle` of a graph node is Optional (None marks an inferred node; a graph may hold nothing else, or nothing at all):
+    # it is never dereferenced without a None test
+    gg2 = get_cfg(ctx, gq)
+    opt_names = {}
+    for a in walk_function(gf.node):
+        if isinstance(a, ast.Assign) and len(a.targets) == 1 and isinstance(a.targets[0], ast.Name) and isinstance(a.value, ast.Attribute) and a.value.attr in ("bundle", "_bundle"):
+            opt_names[a.targets[0].id] = a
+    derefs = []
+    for n in walk_function(gf.node):
+        if isinstance(n, ast.Attribute) and isinstance(n.ctx, ast.Load):
+            v = n.value
+            if isinstance(v, ast.Attribute) and v.attr in ("bundle", "_bundle"):
+                derefs.append((n, norm(v)))
+            elif isinstance(v, ast.Name) and v.id in opt_names:
+                derefs.append((n, v.id))
+    for n, what in derefs:
+        nd = node_of(gg2, n)
+        dom = gg2.dominators(labels_excluded=("exc",))
+        guarded = any(gg2.nodes[i].kind == "test" and what in norm(gg2.nodes[i].stmt.test) and ("None" in norm(gg2.nodes[i].stmt.test) or norm(gg2.nodes[i].stmt.test) == what) for i in dom.get(nd.id, set()))
+        res.ob("graph_to_prov dereferences %s (%s) under a None test: %s" % (what, norm(n)[:40], guarded))
+        if not guarded:
+            res.fail(rule.id, "inferred-sentinel::dereferenced::%s" % norm(n)[:40], ctx.loc(gq, n), "graph_to_prov uses %s although the bundle of a node is None for inferred nodes" % norm(n)[:50],
+                     "a document that only states relations between undeclared endpoints (or the empty document): graph_to_prov(prov_to_graph(d)) raises")
     if not tests:
         res.fail(rule.id, "inferred-sentinel::filter", ctx.loc(gq, gf.node), "graph_to_prov no longer filters nodes on `bundle is not None`", "inferred nodes are added to the rebuilt document")
     return res
@@ -191,6 +214,13 @@ def c14_r4(ctx: Ctx, rule):
         texts = [norm(t.stmt.test) for t in guards]
         extra = [t for t in texts if not (" and " in t and all(len(x.strip()) < 12 for x in t.split(" and "))) and "not in node_map" not in t and "not in" not in t]
         res.ob("add_edge is guarded by %s" % texts)
+        # networkx: an explicit edge key that already exists between the two nodes *updates* that edge instead of adding one
+        keyed = [k for k in c.keywords if k.arg == "key"] or ([c.args[2]] if len(c.args) > 2 else [])
+        res.ob("add_edge lets networkx number parallel edges itself (no explicit key): %s" % (not keyed))
+        if keyed:
+            kv = keyed[0].value if isinstance(keyed[0], ast.keyword) else keyed[0]
+            res.fail(rule.id, "edge-explicit-key::%s" % norm(kv)[:40], ctx.loc(q, c), "add_edge is given the key %s: MultiDiGraph.add_edge updates an existing edge with that key between the same nodes" % norm(kv)[:40],
+                     "two relations of one kind (or with one identifier) between the same two elements become a single edge: graph_to_prov loses one of them")
         value_dedupe = [t for t in texts if " in " in t and "node_map" not in t]
         for t in value_dedupe:
             res.fail(rule.id, "edge-dedupe::%s" % t[:40], ctx.loc(q, c), "add_edge is skipped under `%s`" % t, "parallel relations collapse into one edge")
